@@ -57,8 +57,38 @@ Inductive c04_case :=
 (* the reports printed one after the other (bytes as printed by the harness' mirror of the
    printer), fed to TTYEventDecoder in chunks; the events it returned *)
 | KSeq (rs : list report) (bytes : list N) (impl : list tev)
-(* arbitrary bytes: model agreement only *)
+(* arbitrary bytes: model agreement; property predicate `parse_ok` on simple streams *)
 | KBytes (bytes : list N) (impl : list tev).
+
+(* Arbitrary bytes, specification side: when the stream contains none of the bytes `;` `u` `~` (so no parsed key
+   matcher -- kitty CSI .. u, modified keys CSI n ; m X -- can have produced a key) and the decoder returns only key
+   and raw events, the events must be a PARSE of the stream: each event is denoted by some byte string -- an entry of
+   the key table with that name, the UTF-8 form of a plain character, the bytes of a raw event -- and these strings,
+   in the order of the events, are a prefix of the stream (the rest is still pending).  Nothing is dropped, invented
+   or reordered when a sequence breaks off ("never corrupted by its neighbours"). *)
+Fixpoint prefix_eqb (w s : list N) : bool :=
+  match w, s with
+  | [], _ => true
+  | a :: w', b :: s' => (a =? b) && prefix_eqb w' s'
+  | _ :: _, [] => false
+  end.
+Definition key_candidates (k : kname) (m : N) : list (list N) :=
+  map fst (filter (fun e : list N * (kname * N) => kname_eqb (fst (snd e)) k && (snd (snd e) =? m)) prod_key_table)
+  ++ match k with KChar c => if m =? 0 then [FaceEnc.utf8_encode c] else [] | _ => [] end.
+Fixpoint parse_ok (evs : list tev) (input : list N) : bool :=
+  match evs with
+  | [] => true
+  | ERaw w :: r => prefix_eqb w input && parse_ok r (skipn (length w) input)
+  | EKey k m :: r =>
+      existsb (fun w => match w with
+                        | [] => false
+                        | _ => prefix_eqb w input && parse_ok r (skipn (length w) input)
+                        end) (key_candidates k m)
+  | _ :: _ => true
+  end.
+Definition simple_stream (bytes : list N) (evs : list tev) : bool :=
+  forallb (fun b => negb ((b =? 59) || (b =? 117) || (b =? 126))) bytes
+  && forallb (fun e => match e with EKey _ _ | ERaw _ => true | _ => false end) evs.
 
 Definition c04_check (c : c04_case) : bool * bool :=
   match c with
@@ -76,7 +106,7 @@ Definition c04_check (c : c04_case) : bool * bool :=
                                   | _, _ => tev_eqb (prod_denote r) ev
                                   end) rs impl)
   | KBytes bytes impl =>
-      (list_eqb tev_eqb (prod_decode_fast bytes) impl, true)
+      (list_eqb tev_eqb (prod_decode_fast bytes) impl, negb (simple_stream bytes impl) || parse_ok impl bytes)
   end.
 
 Definition c04_report := SNT.Base.Report.report c04_check.
